@@ -32,6 +32,12 @@ func genWCfg(r *Rng, kinds []string) WCfg {
 	case "config":
 		// a negative backlog timeout means "no backlog timer": the only ways out of the backlog are a grant or (with eviction) a cancellation
 		c.Kind, c.MaxB, c.Timeout, c.Fifo, c.Evict = 3, r.Pick(1, 2, 3, 5), r.Pick(-1, 3_000_000, 10_000_000, 50_000_000), r.Bool(50), r.Bool(50)
+	}
+	if (via == "config" || via == "config-default-order" || via == "lifo" || via == "fifo") && r.Bool(12) {
+		// a non-positive backlog size asks for the default bound (100) - and for nothing else: ordering, timeout and eviction stay as configured
+		c.RawB, c.MaxB = r.Pick(-1, -7), 100
+	}
+	switch via {
 	case "pool", "fixedpool":
 		switch r.Intn(3) {
 		case 0:
@@ -428,12 +434,28 @@ func TestC19(t *testing.T) {
 			rep.Violate("pool:"+sig, fmt.Sprintf("%s (via %s, cfg=%+v, after %d ops)", d, cfg.Via, cfg, len(hist)), map[string]interface{}{"component": "pool", "cfg": cfg, "ops": hist})
 		}
 		phase := 0
+		cancelledOne, cancelledIdx := false, -1
 		gen := func(w *WSUT, step int) *wOp {
 			if len(w.Callers) < total {
 				if r.Bool(30) {
 					return &wOp{4, []int64{r.Pick(1, 1000, 100_000)}} // callers arrive at different instants
 				}
 				return &wOp{1, []int64{0}}
+			}
+			// now and then a queued caller's context is cancelled while it waits (pools do not evict on cancellation: it keeps its place
+			// and must not get in the way of the callers behind it)
+			if !cancelledOne && r.Bool(35) {
+				cancelledOne = true
+				var bs []int
+				for i, c := range w.Callers {
+					if c.status == 0 {
+						bs = append(bs, i)
+					}
+				}
+				if len(bs) > 0 {
+					cancelledIdx = bs[r.Intn(len(bs))]
+					return &wOp{3, []int64{int64(cancelledIdx)}}
+				}
 			}
 			// holders release one at a time, oldest grant first or random; hold times random
 			var hs []int
@@ -472,8 +494,9 @@ func TestC19(t *testing.T) {
 		}
 		if final != nil {
 			served := 0
-			for _, c := range final.Callers {
-				if c.status == 3 {
+			for i, c := range final.Callers {
+				// (a caller of the random-order pool whose context was cancelled while it waited is refused at that moment: it left by its own doing)
+				if c.status == 3 || (c.status == 2 && cfg.Kind == 1 && i == cancelledIdx) {
 					served++
 				}
 			}
